@@ -67,6 +67,7 @@ type Sink struct {
 	closed  bool
 	smtpDly time.Duration
 	wg      sync.WaitGroup
+	holds   map[string]chan struct{} // endpoint -> closed by Release: requests wait for it before answering
 }
 
 func NewSink() (*Sink, error) {
@@ -104,6 +105,26 @@ func (s *Sink) SMTPAddr() string              { return s.smtp.Addr().String() }
 func (s *Sink) Script(name string, rs ...Resp) {
 	s.mu.Lock()
 	s.script[name] = rs
+	s.mu.Unlock()
+}
+
+// Hold makes every request to endpoint name wait (before it is answered) until Release(name) - or until the client
+// goes away, which is recorded as aborted.
+func (s *Sink) Hold(name string) {
+	s.mu.Lock()
+	if s.holds == nil {
+		s.holds = map[string]chan struct{}{}
+	}
+	s.holds[name] = make(chan struct{})
+	s.mu.Unlock()
+}
+
+func (s *Sink) Release(name string) {
+	s.mu.Lock()
+	if ch, ok := s.holds[name]; ok {
+		close(ch)
+		delete(s.holds, name)
+	}
 	s.mu.Unlock()
 }
 
@@ -160,6 +181,17 @@ func (s *Sink) serve(w http.ResponseWriter, hr *http.Request) {
 		return
 	}
 	resp := s.add(r)
+	s.mu.Lock()
+	hold := s.holds[r.Name]
+	s.mu.Unlock()
+	if hold != nil {
+		select {
+		case <-hold:
+		case <-hr.Context().Done():
+			s.finish(r, 0, true)
+			return
+		}
+	}
 	if resp.DelayMs > 0 {
 		select {
 		case <-time.After(time.Duration(resp.DelayMs) * time.Millisecond):
